@@ -250,7 +250,10 @@ func (s *Session) Run(ctx context.Context, dir string, args ...string) error {
 						log.Printf("ignoring %s", line)
 						continue
 					} else {
-						for _, output := range iop.OutputSet {
+						for i := range iop.OutputSet {
+							// Work on the element itself (not a copy)
+							// so that a match is remembered.
+							output := &iop.OutputSet[i]
 							if output.Bindingss != nil {
 								continue
 							}
